@@ -172,6 +172,7 @@ def run(repo=None, harness=None):
 
 
 ASSUMED = []
+FUNCTIONS = []
 
 
 def translate_code(repo):
@@ -187,6 +188,7 @@ def translate_code(repo):
     except (OSError, RecursionError, IndexError, KeyError, TypeError, ValueError) as ex:
         return False, f"gen_json: translation of Json.cpp failed: {type(ex).__name__}: {ex}"
     ASSUMED[:] = assumed
+    FUNCTIONS[:] = re.findall(r"^def (\w+)", text, flags=re.M)
     if not OUT_CODE.exists() or OUT_CODE.read_text() != text:
         OUT_CODE.write_text(text)
     return True, hashlib.sha1(text.encode()).hexdigest()[:12]
@@ -201,8 +203,11 @@ def gen_with(harness):
                              "Nstd/Generated/JsonCode.lean by translating stripComments, the string and number blocks of "
                              f"readToken and skipSpace (sha1 {msg})")
             for a in ASSUMED:
-                if a not in ctx.assumptions:
+                if "translator: " + a not in ctx.assumptions:
                     ctx.assumptions.append("translator: " + a)
+            ctx.cov["translated_code"] = {"file": "lean/Nstd/Generated/JsonCode.lean", "sha1": msg.split("/")[-1],
+                                          "definitions": list(FUNCTIONS), "lines": len(OUT_CODE.read_text().splitlines()),
+                                          "equalities": "Nstd.Json.PropsGen"}
         return ok, msg
     return gen
 
